@@ -373,6 +373,44 @@ def run_damv(ctx: Ctx) -> None:
                         wrong23.append(ast.unparse(g.ifs[0]))
                 except Unsupported:
                     pass
+            elif src in (frozenset(["S2"]), frozenset(["S3"])) and \
+                    isinstance(g.target, ast.Name) and isinstance(
+                    v.elt, ast.Name) and v.elt.id == g.target.id \
+                    and len(g.ifs) == 1:
+                # the two-step form: [j for j in S2 if P] extended by
+                # (j for j in S3 if P)
+                other = "S3" if src == frozenset(["S2"]) else "S2"
+                exts = [c_ for b_ in body for c_ in ast.walk(b_)
+                        if isinstance(c_, ast.Call) and isinstance(
+                            c_.func, ast.Attribute)
+                        and c_.func.attr == "extend" and isinstance(
+                            c_.func.value, ast.Name)
+                        and c_.func.value.id == nm and len(c_.args) == 1
+                        and isinstance(c_.args[0], (ast.GeneratorExp,
+                                                    ast.ListComp))]
+                if len(exts) == 1 and len(exts[0].args[0].generators) == 1:
+                    g2 = exts[0].args[0].generators[0]
+                    e2_ = exts[0].args[0].elt
+                    if _src_roles(g2.iter) == frozenset([other]) and \
+                            isinstance(g2.target, ast.Name) and isinstance(
+                            e2_, ast.Name) and e2_.id == g2.target.id and \
+                            len(g2.ifs) == 1:
+                        both = True
+                        for gg in (g, g2):
+                            ee = env.copy()
+                            ee.vars[gg.target.id] = iv
+                            try:
+                                c = ev.cond(ee, gg.ifs[0])
+                                c = map_atom(c, lambda p: p.subst({
+                                    ("cell", "J", (iv,)): L}))
+                                if equivalent(c, ("lt", H - Q, L)) \
+                                        is not None:
+                                    both = False
+                                    wrong23.append(ast.unparse(gg.ifs[0]))
+                            except Unsupported:
+                                both = False
+                        if both:
+                            s23 = nm
     ctx.ob("D3.2", fi, fi.node, s23 is not None,
            f"`{s23}` = {{j in S2 u S3 : l_j > H - q}} (theorem 3)" if s23
            else (f"the elements of S2 u S3 are filtered by `{wrong23[0]}`, "
@@ -400,10 +438,20 @@ def run_damv(ctx: Ctx) -> None:
                 s.value.args[0].id) == "S3":
             s3m = nm
     match_loop = None
+    rev_iter = False
     for s in body:
         if isinstance(s, ast.For) and s is not cls_loop and isinstance(
                 s.iter, ast.Name) and roles.get(s.iter.id) == "S2":
             match_loop = s
+        if isinstance(s, ast.For) and s is not cls_loop and isinstance(
+                s.iter, ast.Call) and isinstance(
+                s.iter.func, ast.Name) and s.iter.func.id == "reversed" \
+                and len(s.iter.args) == 1 and isinstance(
+                s.iter.args[0], ast.Name) and roles.get(
+                s.iter.args[0].id) == "S2":
+            # `for i in reversed(S2)` visits S2 from the back
+            match_loop = s
+            rev_iter = True
     okC = s3m is not None and match_loop is not None
     detail = ""
     if okC:
@@ -416,6 +464,10 @@ def run_damv(ctx: Ctx) -> None:
             match_loop)]
         inner = next((s for s in match_loop.body if isinstance(s, ast.For)),
                      None)
+        if rev_iter and rev:
+            rev = []              # reversed twice: back to the wrong order
+        elif rev_iter:
+            rev = [match_loop]
         okC = bool(rev) and inner is not None and isinstance(
             match_loop.target, ast.Name)
         if not rev:
@@ -456,6 +508,9 @@ def run_damv(ctx: Ctx) -> None:
                     dels = [st for st in tests[0].body if isinstance(
                         st, ast.Delete) and len(st.targets) == 1
                         and ast.unparse(st.targets[0]) == f"{s3m}[{pos}]"]
+                    dels += [st for st in tests[0].body if isinstance(
+                        st, ast.Expr) and ast.unparse(st.value).replace(
+                        " ", "") == f"{s3m}.pop({pos})"]
                     brk = any(isinstance(st, ast.Break)
                               for st in tests[0].body)
                     okC = bool(fit) and len(dels) == 1 and brk and \
